@@ -184,6 +184,13 @@ of_linear_binary_code_finish_decoding_with_ml (of_linear_binary_code_cb_t	*ofcb)
 	}
 	of_free (permutation_array);
 	permutation_array = NULL;
+	if (of_is_decoding_complete ((of_session_t*)ofcb))
+	{
+		/* injecting the known symbols has rebuilt the last missing source symbols: there is no system left to solve. */
+		OF_TRACE_LVL (1, ("%s: decoding completed by the simplification step\n", __FUNCTION__))
+		OF_EXIT_FUNCTION
+		return OF_STATUS_OK;
+	}
 	OF_TRACE_LVL (1, ("%s: ofcb->remain_rows=%d, ofcb->remain_cols=%d\n", __FUNCTION__, ofcb->remain_rows, ofcb->remain_cols))
 	if (of_linear_binary_code_create_simplified_linear_system (ofcb) != OF_STATUS_OK)
 	{
